@@ -138,6 +138,7 @@ type workerQ struct {
 	started bool
 
 	poisoned bool
+	stuck    bool // the worker did not come back within workerWait: it is not asked again
 	parked   *verifsched.Arrival
 
 	pool *taskPool // nil: a fresh task object for every add
@@ -173,8 +174,16 @@ func newWorkerQ(name string) *workerQ {
 	return w
 }
 
+// workerWait: how long the harness waits for the worker goroutine of a queue (a lower bound on
+// patience, not an assertion: on a loaded machine a hand-over may take seconds). A worker that did
+// not come back once is not asked again (the case goes on without it).
+const workerWait = 12 * time.Second
+
 // pick lets the parked worker take the head task; returns the id handed to the handler.
 func (w *workerQ) pick() string {
+	if w.stuck {
+		return "stuck"
+	}
 	if w.cur != "nil" {
 		return "busy"
 	}
@@ -197,7 +206,8 @@ func (w *workerQ) pick() string {
 				return "unexpected-point-" + a.Name
 			}
 			a.Release()
-		case <-time.After(3 * time.Second):
+		case <-time.After(workerWait):
+			w.stuck = true
 			return "timeout-loop"
 		}
 	}
@@ -208,7 +218,8 @@ func (w *workerQ) pick() string {
 		case id := <-w.picked:
 			w.cur = id
 			return id
-		case <-time.After(3 * time.Second):
+		case <-time.After(workerWait):
+			w.stuck = true
 			return "timeout-handler"
 		}
 	}
@@ -217,6 +228,9 @@ func (w *workerQ) pick() string {
 func (w *workerQ) answer(res queue.TaskResult) string {
 	if w.cur == "nil" {
 		return "idle"
+	}
+	if w.stuck {
+		return "stuck"
 	}
 	res.AfterHandle = func() { w.applied <- struct{}{} }
 	w.result <- res
@@ -231,7 +245,8 @@ func (w *workerQ) answer(res queue.TaskResult) string {
 		case <-w.applied:
 			w.cur = "nil"
 			return "-"
-		case <-time.After(3 * time.Second):
+		case <-time.After(workerWait):
+			w.stuck = true
 			return "timeout-apply"
 		}
 	}
@@ -255,7 +270,7 @@ func (w *workerQ) filter(fn func(task.Task) bool) string {
 			}
 		case r := <-done:
 			return r
-		case <-time.After(3 * time.Second):
+		case <-time.After(workerWait):
 			return "timeout-filter"
 		}
 	}
@@ -583,11 +598,14 @@ func (s *qset) shrink(k int, route string, left, maxOps int) {
 		case "success":
 			if w.cur == "nil" {
 				s.op(k, "pick", nil, "", nil, nil, nil)
-				if w.cur == "nil" || strings.HasPrefix(w.cur, "timeout") {
+				if w.cur == "nil" || w.stuck {
 					return
 				}
 			}
 			s.op(k, "result", nil, "success", nil, nil, nil)
+			if w.stuck {
+				return
+			}
 		}
 	}
 }
@@ -703,9 +721,19 @@ func c05Burst(c *Case, rng *Rng, maxPeak int) {
 	}
 	next := 0
 	budget := 3*peak + 200 // ops
+	// a panic inside withLock leaves q.m locked for ever: never touch the queue of a poisoned case again
+	qlen := func() int {
+		if w.poisoned {
+			return 0
+		}
+		return q.Length()
+	}
 	grow := func(k int, route string) {
 		c.Note("grow:" + route)
 		for k > 0 && budget > 0 && !w.poisoned {
+			if w.stuck && route == "tailTasks" {
+				route = "addLast"
+			}
 			switch route {
 			case "addLast":
 				next++
@@ -724,6 +752,9 @@ func c05Burst(c *Case, rng *Rng, maxPeak int) {
 				k -= n
 				budget -= n
 			case "addAfterLast":
+				if w.poisoned {
+					return
+				}
 				if id, ok := lastID(q); ok {
 					next++
 					s.op(0, "addAfter", []int{id, next}, "", nil, nil, nil)
@@ -734,7 +765,7 @@ func c05Burst(c *Case, rng *Rng, maxPeak int) {
 				k--
 				budget--
 			case "tailTasks":
-				if q.Length() == 0 {
+				if qlen() == 0 {
 					next++
 					s.op(0, "addLast", []int{next}, "", nil, nil, nil)
 					k--
@@ -742,8 +773,9 @@ func c05Burst(c *Case, rng *Rng, maxPeak int) {
 				if w.cur == "nil" {
 					s.op(0, "pick", nil, "", nil, nil, nil)
 				}
-				if w.cur == "nil" || strings.HasPrefix(w.cur, "timeout") {
-					return
+				if w.cur == "nil" || w.stuck {
+					budget--
+					continue
 				}
 				n := rng.Range(1, 400)
 				if n > k {
@@ -761,9 +793,15 @@ func c05Burst(c *Case, rng *Rng, maxPeak int) {
 		}
 	}
 	shrink := func(left int, route string) {
-		n := q.Length() - left
+		if w.poisoned {
+			return
+		}
+		n := qlen() - left
 		if n <= 0 {
 			return
+		}
+		if route == "success" && w.stuck {
+			route = "removeHeadById"
 		}
 		if route == "success" && n > 150 {
 			n = 150 // every pick is a round trip through the worker goroutine
@@ -780,22 +818,22 @@ func c05Burst(c *Case, rng *Rng, maxPeak int) {
 				s.op(0, "remove", []int{rng.Range(1, next+1)}, "", nil, nil, nil)
 			}
 		} else {
-			s.shrink(0, route, q.Length()-n, n)
+			s.shrink(0, route, qlen()-n, n)
 		}
 		budget -= n
 	}
 	if nominal {
 		c.Desc = fmt.Sprintf("burst of %d tasks queued at the tail, then taken out by the worker and by callers", peak)
-		for q.Length() < peak && budget > 0 && !w.poisoned {
+		for qlen() < peak && budget > 0 && !w.poisoned {
 			k := rng.Range(1, peak)
-			if k > peak-q.Length() {
-				k = peak - q.Length()
+			if k > peak-qlen() {
+				k = peak - qlen()
 			}
 			grow(k, PickOne(rng, []string{"addLast", "addLast", "tailTasks"}))
 		}
 		left := rng.Range(0, peak/8)
-		for q.Length() > left && budget > 0 && !w.poisoned {
-			l := q.Length() - rng.Range(1, peak)
+		for qlen() > left && budget > 0 && !w.poisoned {
+			l := qlen() - rng.Range(1, peak)
 			if l < left {
 				l = left
 			}
@@ -808,7 +846,7 @@ func c05Burst(c *Case, rng *Rng, maxPeak int) {
 	} else {
 		c.Desc = fmt.Sprintf("queue of up to %d tasks, growth and removal phases by every route", peak)
 		for ph := rng.Range(3, 7); ph > 0 && budget > 0 && !w.poisoned; ph-- {
-			if l := q.Length(); l < peak && (l == 0 || rng.Chance(55)) {
+			if l := qlen(); l < peak && (l == 0 || rng.Chance(55)) {
 				grow(rng.Range(1, peak-l), PickOne(rng, []string{"addLast", "addLast", "tailTasks", "addFirst", "addAfterLast"}))
 			} else {
 				shrink(rng.Range(0, l), PickOne(rng, append([]string{"removeRandom"}, c05DrainRoutes...)))
@@ -817,8 +855,10 @@ func c05Burst(c *Case, rng *Rng, maxPeak int) {
 	}
 	c.Nontrivial = true
 	switch {
-	case peak > 848:
-		c.Note("burst:peak>848")
+	case peak > 2048:
+		c.Note("burst:peak>2048")
+	case peak > 1024:
+		c.Note("burst:peak>1024")
 	case peak > 256:
 		c.Note("burst:peak>256")
 	default:
@@ -926,9 +966,12 @@ func runC05(r *Run) {
 		}
 	})
 	r.Cases(500000, r.N(60, 600), 0, c05Dump)
-	r.Cases(600000, r.N(1200, 12000), 0, c05Set)
-	maxPeak := r.N(1700, 5000)
-	r.Cases(700000, r.N(16, 60), 0, func(c *Case, rng *Rng) { c05Burst(c, rng, maxPeak) })
+	r.Cases(600000, r.N(1200, 8000), 0, c05Set)
+	maxPeak := r.N(2600, 4500)
+	ct := r.CaseTimeout
+	r.CaseTimeout = 4 * time.Minute // thousands of observed steps per case; the machine may be loaded
+	r.Cases(700000, r.N(20, 40), 0, func(c *Case, rng *Rng) { c05Burst(c, rng, maxPeak) })
+	r.CaseTimeout = ct
 	n := r.N(3000, 40000)
 	r.Cases(10, n, 0, func(c *Case, rng *Rng) {
 		w := newWorkerQ(fmt.Sprintf("c05-%d", c.Idx))
